@@ -550,6 +550,10 @@ func waiterExtra(t *tr) string {
 
 	// --- engine: config key of the pool option and its way into the instances
 	b.WriteString("\n" + ex.engineWiring())
+	b.WriteString("\n" + ex.runFieldResolution())
+
+	// --- coreutil: the wrapper of the shared schedule passes Next / Left through (round 4)
+	b.WriteString("\n" + waiterCallbackSchedule(t))
 
 	// --- cli: default of discard_overflow
 	b.WriteString("\n" + waiterCliDiscardDefault(t))
@@ -1138,7 +1142,34 @@ func waiterCliDiscardDefault(t *tr) string {
 		t.errs = append(t.errs, "cli.readConfig not found")
 		return ""
 	}
-	type hit struct{ getKey, setKey, lookKey, putKey, val, decodeAfter, guard string }
+	type hit struct {
+		getKey, setKey, lookKey, putKey, val, decodeAfter, guard string
+		readBefore                                                   bool
+	}
+	// string constants declared in the file or inside readConfig: a key may be spelled through one of them
+	consts := map[string]string{}
+	ast.Inspect(f, func(n ast.Node) bool {
+		gd, ok := n.(*ast.GenDecl)
+		if !ok || gd.Tok != token.CONST {
+			return true
+		}
+		for _, sp := range gd.Specs {
+			vs, ok := sp.(*ast.ValueSpec)
+			if !ok || len(vs.Names) != len(vs.Values) {
+				continue
+			}
+			for i, nm := range vs.Names {
+				if bl, ok := vs.Values[i].(*ast.BasicLit); ok && bl.Kind == token.STRING {
+					if _, dup := consts[nm.Name]; dup {
+						consts[nm.Name] = "<ambiguous constant>:" + nm.Name
+					} else {
+						consts[nm.Name] = bl.Value
+					}
+				}
+			}
+		}
+		return true
+	})
 	var hits []hit
 	for k, s := range rc.Body.List {
 		outer, ok := s.(*ast.IfStmt)
@@ -1191,6 +1222,18 @@ func waiterCliDiscardDefault(t *tr) string {
 				h.decodeAfter = "config.DecodeAndValidate(v.AllSettings(), conf)"
 			}
 		}
+		// ... and the config must have been read before: every call that reads it (file or standard input) stands in an earlier
+		// statement, none in a later one
+		readsBefore, readsAfter := 0, 0
+		for j, st := range rc.Body.List {
+			n := strings.Count(src(st), "v.ReadInConfig(") + strings.Count(src(st), "v.ReadConfig(")
+			if j < k {
+				readsBefore += n
+			} else {
+				readsAfter += n
+			}
+		}
+		h.readBefore = readsBefore >= 1 && readsAfter == 0
 		hits = append(hits, h)
 	}
 	if len(hits) != 1 || (hits[0].val != "true" && hits[0].val != "false") {
@@ -1199,6 +1242,9 @@ func waiterCliDiscardDefault(t *tr) string {
 	}
 	h := hits[0]
 	unq := func(s string) string {
+		if c, ok := consts[s]; ok {
+			s = c
+		}
 		if u, err := strconv.Unquote(s); err == nil {
 			return u
 		}
@@ -1213,6 +1259,8 @@ func waiterCliDiscardDefault(t *tr) string {
 	b.WriteString("def cliPoolsGetKey : String := " + strconv.Quote(unq(h.getKey)) + "\n")
 	b.WriteString("def cliPoolsSetKey : String := " + strconv.Quote(unq(h.setKey)) + "\n")
 	b.WriteString("def cliDecodesAfterDefault : Bool := " + map[bool]string{true: "true", false: "false"}[h.decodeAfter != ""] + "\n")
+	b.WriteString("/-- every `v.ReadInConfig()` / `v.ReadConfig(…)` of `readConfig` stands before the default block (round 4) -/\n")
+	b.WriteString("def cliReadsConfigBeforeDefault : Bool := " + map[bool]string{true: "true", false: "false"}[h.readBefore] + "\n")
 	b.WriteString("/-- the condition under which the default block runs at all (besides the type assertion of the section list) -/\n")
 	b.WriteString("def cliDefaultGuard : String := " + strconv.Quote(h.guard) + "\n")
 	// the per-section `if _, ok := poolMap[KEY]; !ok` must be the only condition inside the loop: an enclosing `if` other than the
@@ -1443,5 +1491,162 @@ func waiterPhoutFacts(t *tr, ns *packages.Package, nx *waiterTr) string {
 	}
 	b.WriteString("/-- the parts `appendPhout` prints, in order (`TAB` = the delimiter, `TAB+field*` = every field of `s.fields`, each after a delimiter) -/\n")
 	b.WriteString("def phoutLayout : List String := [" + strings.Join(q, ", ") + "]\n\n")
+	return b.String()
+}
+
+// runFieldResolution (round 4): which struct field every `….discardOverflow` read in (*instance).Run resolves to. The wiring
+// (`instanceDiscardFrom`) sets `instanceSharedDeps.discardOverflow`; a field of the same name declared closer (in `instance` itself)
+// would shadow it and stay false.
+func (x *waiterTr) runFieldResolution() string {
+	var want *types.Var
+	if obj, ok := x.pkg.Types.Scope().Lookup("instanceSharedDeps").(*types.TypeName); ok {
+		if st, ok := obj.Type().Underlying().(*types.Struct); ok {
+			for k := 0; k < st.NumFields(); k++ {
+				if st.Field(k).Name() == "discardOverflow" {
+					want = st.Field(k)
+				}
+			}
+		}
+	}
+	seen := map[string]bool{}
+	var reads []string
+	if fd := waiterFindMethod(x.pkg, "instance", "Run"); fd != nil {
+		ast.Inspect(fd.Body, func(n ast.Node) bool {
+			sel, ok := n.(*ast.SelectorExpr)
+			if !ok || sel.Sel.Name != "discardOverflow" {
+				return true
+			}
+			r := "<other>:" + x.src(sel)
+			if s, ok := x.pkg.TypesInfo.Selections[sel]; ok && want != nil && s.Obj() == want {
+				r = "instanceSharedDeps.discardOverflow"
+			}
+			if !seen[r] {
+				seen[r] = true
+				reads = append(reads, strconv.Quote(r))
+			}
+			return true
+		})
+	}
+	var b strings.Builder
+	b.WriteString("/-- regenerated from `(*instance).Run` (go/types): the struct field(s) the reads of `discardOverflow` resolve to -/\n")
+	b.WriteString("def runReadsDiscardField : List String := [" + strings.Join(reads, ", ") + "]\n")
+	return b.String()
+}
+
+// waiterCallbackSchedule (round 4): core/coreutil/schedule.go `callbackOnFinishSchedule`, the only wrapper of the shared schedule
+// (`sharedScheduleWrappers`). `Next` must return what the wrapped schedule's `Next` returned and `Left` what its `Left` returned:
+//
+//	ts, ok = s.Schedule.Next(); [if … { callback }]; return            (named results, or `return ts, ok`)
+//	left := s.Schedule.Left(); [if … { callback }]; return left
+//
+// The names are free; any other assignment to the returned variables, a second call of the wrapped method, or a result that is
+// not exactly the variable(s) bound to the wrapped call is reported as "not transparent".
+func waiterCallbackSchedule(t *tr) string {
+	x := &waiterTr{t: t, pkg: t.pkg}
+	check := func(method string, nres int) (bool, string) {
+		fd := waiterFindMethod(t.pkg, "callbackOnFinishSchedule", method)
+		if fd == nil || len(fd.Recv.List[0].Names) != 1 {
+			return false, "method not found"
+		}
+		recv := fd.Recv.List[0].Names[0].Name
+		inner := recv + ".Schedule." + method + "()"
+		var bound []string
+		calls, writes := 0, 0
+		var named []string
+		if fd.Type.Results != nil {
+			for _, f := range fd.Type.Results.List {
+				for _, n := range f.Names {
+					named = append(named, n.Name)
+				}
+			}
+		}
+		ast.Inspect(fd.Body, func(n ast.Node) bool {
+			if c, ok := n.(*ast.CallExpr); ok && x.src(c) == inner {
+				calls++
+			}
+			return true
+		})
+		ok := true
+		why := ""
+		for k, st := range fd.Body.List {
+			switch v := st.(type) {
+			case *ast.AssignStmt:
+				if len(v.Rhs) == 1 && x.src(v.Rhs[0]) == inner && len(v.Lhs) == nres && bound == nil {
+					for _, l := range v.Lhs {
+						bound = append(bound, x.src(l))
+					}
+					continue
+				}
+				ok, why = false, "assignment "+x.src(v)
+			case *ast.IfStmt:
+				// the callback: its body may not write the bound variables nor return
+				ast.Inspect(v, func(n ast.Node) bool {
+					switch w := n.(type) {
+					case *ast.AssignStmt:
+						for _, l := range w.Lhs {
+							for _, bv := range bound {
+								if x.src(l) == bv {
+									writes++
+								}
+							}
+						}
+					case *ast.IncDecStmt:
+						writes++
+					case *ast.ReturnStmt:
+						writes++
+					}
+					return true
+				})
+			case *ast.ReturnStmt:
+				if k != len(fd.Body.List)-1 {
+					ok, why = false, "early return"
+					continue
+				}
+				var got []string
+				for _, r := range v.Results {
+					got = append(got, x.src(r))
+				}
+				if len(got) == 0 {
+					got = named
+				}
+				if strings.Join(got, ",") != strings.Join(bound, ",") {
+					ok, why = false, "returns "+strings.Join(got, ",")+" instead of "+strings.Join(bound, ",")
+				}
+			default:
+				ok, why = false, "statement "+x.src(st)
+			}
+		}
+		if calls != 1 {
+			ok, why = false, fmt.Sprintf("%d calls of the wrapped method", calls)
+		}
+		if writes != 0 {
+			ok, why = false, "the callback branch writes a result or returns"
+		}
+		if bound == nil {
+			ok, why = false, "the wrapped call is not bound to the results"
+		}
+		return ok, why
+	}
+	var b strings.Builder
+	nOK, nWhy := check("Next", 2)
+	lOK, lWhy := check("Left", 1)
+	bs := map[bool]string{true: "true", false: "false"}
+	b.WriteString("/-- regenerated from `core/coreutil/schedule.go` `(*callbackOnFinishSchedule).Next`: it returns exactly what the wrapped schedule's `Next` returned" + map[bool]string{true: "", false: " — NOT: " + nWhy}[nOK] + " -/\n")
+	b.WriteString("def cbNextTransparent : Bool := " + bs[nOK] + "\n\n")
+	b.WriteString("/-- `(*callbackOnFinishSchedule).Left`: it returns exactly what the wrapped schedule's `Left` returned" + map[bool]string{true: "", false: " — NOT: " + lWhy}[lOK] + " -/\n")
+	b.WriteString("def cbLeftTransparent : Bool := " + bs[lOK] + "\n\n")
+	// the struct embeds the wrapped schedule: every other method of core.Schedule (Start) is the wrapped one
+	embeds := false
+	if obj, ok := t.pkg.Types.Scope().Lookup("callbackOnFinishSchedule").(*types.TypeName); ok {
+		if st, ok := obj.Type().Underlying().(*types.Struct); ok {
+			for k := 0; k < st.NumFields(); k++ {
+				if st.Field(k).Embedded() && st.Field(k).Name() == "Schedule" {
+					embeds = true
+				}
+			}
+		}
+	}
+	b.WriteString("/-- `callbackOnFinishSchedule` embeds the wrapped `core.Schedule` (the methods it does not define are the wrapped ones) -/\n")
+	b.WriteString("def cbEmbedsSchedule : Bool := " + bs[embeds] + "\n")
 	return b.String()
 }
